@@ -73,6 +73,12 @@ func TestC11(t *testing.T) {
 		if diff := compareTraces(traceA, ReplayAs(d.hist, ReplicaOpts{Traffic: true})); diff != "" {
 			t.Fatalf("a replica that also served CheckTx / Simulate / queries between blocks diverged: %s\nhistory:\n%s", diff, jsonStr(d.log))
 		}
+		// a replica whose operator started it with other node-local options: invariants not asserted at
+		// genesis and / or asserted periodically by x/crisis
+		flags := NodeFlags{SkipGenesisInvariants: rapid.Bool().Draw(t, "skipGenesisInvariants"), InvCheckPeriod: uint(rapid.IntRange(0, 3).Draw(t, "invCheckPeriod"))}
+		if diff := compareTraces(traceA, ReplayAs(d.hist, ReplicaOpts{Flags: flags})); diff != "" {
+			t.Fatalf("a replica started with node-local options %+v diverged from one started with the defaults: %s\nhistory:\n%s", flags, diff, jsonStr(d.log))
+		}
 		logDiffs := 0
 		for i := range traceA {
 			for j := range traceA[i].TxLogs {
